@@ -17,13 +17,17 @@ def pkgdir(demo_path, meta):
     table = {"type1":"tokens/type1","type2":"tokens/type2","type3":"tokens/type3","type5":"tokens/type5","batched":"tokens/batched","tokens":"tokens","ecdsa":"ecdsa","ed25519":"ed25519","quicwire":"quicwire","util":"util"}
     return table[name]
 def main():
-    only = sys.argv[1:]
+    args = sys.argv[1:]
+    src, offset = "/tmp/wt-C", 0
+    if len(args) >= 2 and args[0] == "--src":
+        src, offset, args = args[1], int(args[2]), args[3:]
+    only = args
     subprocess.run("git -C /repo worktree remove --force %s 2>/dev/null; git -C /repo worktree add -q --detach %s HEAD" % (SCR, SCR), shell=True)
     results = []
-    for wt in sorted(glob.glob("/tmp/wt-C*/_out")):
-        prop = wt.split("/")[2][3:]
+    for wt in sorted(glob.glob(src + "*/_out")):
+        prop = "C" + wt.split("/")[2].split("-C")[1]
         for k in (1, 2):
-            sid = "%s-%d" % (prop, k)
+            sid = "%s-%d" % (prop, k + offset)
             if only and sid not in only: continue
             patch = "%s/patch%d.diff" % (wt, k)
             if not os.path.exists(patch): continue
